@@ -260,11 +260,18 @@ from . import mustcall
 
 from . import inventory
 
+
+def _c04_o5(W, ob):
+    from . import c04 as _m
+    return _m.o5(W, ob)
+
+
 OBLIGATIONS = [
     ('C16.O1', 'documented constraint <-> guard', 'fps != 0; 1 <= max_frames_behind < SPECTATOR_BUFFER_SIZE; catchup_speed >= 1; num_players != 0 with revalidation against the new value; '
      'handle range rules per player type; duplicate handle; every handle in 0..num_players registered; unconstrained setters store unconditionally.', o1),
     ('C16.O1b', 'desync interval 0 rejected (= C09.O4)', 'see C09.O4', c09.o4),
     ('C16.O1c', 'synctest boundary (= C13.O1)', 'see C13.O1', c13.o1),
+    ('C16.O1d', 'lockstep forces sparse saving off (= C04.O5)', 'the builder accepts max_prediction 0 together with sparse saving; P2PSession::new turns sparse saving off in that case (a lockstep session never saves, so the confirmed frame would stay capped at the never-advancing last saved frame and the input rings would overflow); see C04.O5', _c04_o5),
     ('C16.O2', 'runtime misuse leaves the session unchanged', 'no error exit of the P2PSession API functions is reachable after an effect on the session; the documented error cases exist.', o2),
     ('C16.O2b', 'set_input_delay guards (= C11.O3)', 'see C11.O3', c11.o3),
     ('C16.O2c', 'advancing before synchronisation is refused (= C12.O4)', 'advance_frame returns NotSynchronized until check_initial_sync has seen every remote AND every spectator endpoint synchronised; see C12.O4', c12.o4),
@@ -276,4 +283,5 @@ OBLIGATIONS = [
     ('C16.M', 'must-call floor', 'the calls listed for this property in tables/must_call.json are made on every path from the entry of their function to a normal return (interprocedural must-call): a new early return, fast path or extra condition in front of one of them is reported; see rules/mustcall.py', mustcall.rule_for('C16')),
     ('C16.S', 'state inventory', 'every field of the structs this property\'s rules read (tables/state.json) is known, and is written only by its reviewed writers (or helpers only they call): a new field is new state across calls -- a cache, a flag, a stored deadline -- that nothing has shown to stay in step; a new writer is a second place that resets, re-arms or moves something; see rules/inventory.py', inventory.state_rule_for('C16')),
     ('C16.E', 'error-exit inventory', 'every (function, GgrsError variant) pair constructed in the crate is listed in tables/error_exits.json: a call that can fail in a new way -- typically after effects whose requests are then dropped -- is reported; see rules/inventory.py', inventory.error_rule),
+    ('C16.K', 'call inventory', 'every reviewed call of a function that writes state (tables/call_edges.json, callers in the structs this property\'s rules read) is still made, directly or through helpers: a call deleted as redundant is reported; see rules/inventory.py', inventory.call_rule_for('C16')),
 ]
